@@ -197,6 +197,24 @@ CHECKS.update({
     ),
 })
 
+CHECKS.update({
+    "C14": (
+        "exploration",
+        "exhaustive enumeration of date literals and boundary products of time/zone "
+        "fields + Hypothesis date-times; oracle = objects built from the fields "
+        "(decode) and an independent regex reader of the encoder's text (encode)",
+        "Every day of the chosen years (quick: 11 boundary years; thorough: all of "
+        "0001-9999) in both date forms, 6x5x5x23x2 time literals, every whole and "
+        "half-hour zone offset in every spelling, seconds=60 and day 366 of non-leap "
+        "years are decoded by decode_datetime and by a full parse under six variants; "
+        "temporal objects over a grid of micro-second and offset values are encoded "
+        "by four encoders and read back by a reference reader and the own decoder.",
+        "Trusted: the harness formatter/reader for date-time text (written from "
+        "spec/odl_ch12_extract.txt 12.3.2) and Python's datetime constructors.",
+        "DESIGN.md 4/C14",
+    ),
+})
+
 PENDING = {}   # id -> reason while a check is not built yet
 
 
